@@ -295,6 +295,9 @@ def n4_sign(ctx):
         return
     bid, t = minus[0]
     conds = [c.replace('$', '') for c in b.cond_text(bid)]
+    conds = [c for c in conds if not re.search(r'^discr\(.*\)=\[0, 1\]$', c)]          # a decision that admits both arms of an Option / Result decides nothing
+    nm = next((str(b.arg_names.get(i)) for i in range(1, b.argc + 1) if str(b.locals.get(i, '')) == 'f64'), 'number')
+    conds = [re.sub(r'\b%s\b' % re.escape(nm), 'number', c) for c in conds]
     if conds in (['(number Lt 0.0)!=[0]'], ['(0.0 Gt number)!=[0]'], ['(number Ge 0.0)=[0]'], ['(0.0 Le number)=[0]']):
         ctx.ok('N4', "'-' is pushed iff number < 0.0", 'guard-dom', site=t['loc'])
     else:
@@ -502,9 +505,10 @@ def n8_zero_fraction(ctx):
         if not (a2[0] == 'const' and a2[2] == 0):
             continue
         n += 1
+        pn = re.escape(str(b.arg_names.get(1) or 'f'))            # whatever the parameter is called
         cs = [cond_str(d, v) for d, v in conds]
-        exact = [c for c in cs if re.fullmatch(r'\(f64::fract\(f64::abs\(f\)\) Eq 0(\.0)?\)!=\[0\]', c) or re.fullmatch(r'\(0(\.0)? Eq f64::fract\(f64::abs\(f\)\)\)!=\[0\]', c)
-                 or re.fullmatch(r'\(f64::fract\(f64::abs\(f\)\) Ne 0(\.0)?\)=\[0\]', c)]
+        exact = [c for c in cs if re.fullmatch(r'\(f64::fract\(f64::abs\(%s\)\) Eq 0(\.0)?\)!=\[0\]' % pn, c) or re.fullmatch(r'\(0(\.0)? Eq f64::fract\(f64::abs\(%s\)\)\)!=\[0\]' % pn, c)
+                 or re.fullmatch(r'\(f64::fract\(f64::abs\(%s\)\) Ne 0(\.0)?\)=\[0\]' % pn, c)]
         if exact and len(cs) == 1:
             ctx.ok('N8', 'fract_information returns 0 only when fract(|f|) == 0.0', 'guard-dom', site=b.loc)
         else:
